@@ -20,7 +20,7 @@ RULE = ('two families, each through the real TcpTransport (on simulated socket+s
         'distinct = event-log digests')
 ASSUMPTIONS = ['the deciding runs use a model of the kernel endpoint (real sockets cannot be replayed); the model is compared with the loopback stack by ./check selftest-sockmodel, outside the registered checks',
                'real: TcpTransport, TcpTransportAsync, asyncio.StreamReader/StreamWriter/StreamReaderProtocol, async_timeout']
-EXPECT_PROBES = {'all': ['c18_script', 'c18_session', 'c18_timeout_seen', 'c18_short_read', 'c18_reconnect', 'c18_double_close', 'short_writes', 'backpressure_pause', 'c18_peer_reset']}
+EXPECT_PROBES = {'all': ['c18_script', 'c18_session', 'c18_timeout_seen', 'c18_short_read', 'c18_reconnect', 'c18_double_close', 'short_writes', 'backpressure_pause', 'c18_peer_reset', 'peer_eof']}
 REAL_VS_STUB = {'real': ['adb_shell.transport.tcp_transport.TcpTransport', 'adb_shell.transport.tcp_transport_async.TcpTransportAsync', 'asyncio streams + async_timeout',
                          'adb_shell.adb_device[_async] (session family)'],
                 'stub': ['kernel socket + select (simadb.simsock)', 'asyncio.Transport + event loop selector (simadb.simsock / aioloop)', 'peer: raw byte script or adbd model', 'clock']}
@@ -95,7 +95,10 @@ def generate(seed, tier):
         return {'seed': seed, 'scn': scn, 'family': 'script', 'reset': True}
     if g.chance(0.45):
         chunks, ops = gen_script(g)
-        scn = {'api': api, 'transport': 'tcp', 'tcp': tcp, 'device': {'raw_peer': True, 'script': chunks}, 'actors': [ops],
+        dev = {'raw_peer': True, 'script': chunks}
+        if g.chance(0.3):
+            dev['eof_after'] = True      # the peer closes its side after its last chunk: reads see end-of-stream, they must still return
+        scn = {'api': api, 'transport': 'tcp', 'tcp': tcp, 'device': dev, 'actors': [ops],
                'config': {'frag': g.pick(['whole', 'mixed', 'uniform', 'one']), 'call_cost': 1e-5, 'shadow_store': False}, 'object': {'banner': 'x'}}
         return {'seed': seed, 'scn': scn, 'family': 'script'}
     big = 20000 if tier == 'quick' else 200000
